@@ -494,7 +494,7 @@ func flushDischargeRule(o *Ob) {
 	// the resolved slice: appended iff ResolvedAt(now); EndsAt cleared otherwise, on the copy
 	resolved := del.Common().Args[1]
 	_, parts := e.AppendParts(resolved)
-	resAt := LRe(`\(\*model\.Alert\)\.ResolvedAt\(&a:am/types\.Alert(\.Alert)?, time\.Now\(\)\)`, true)
+	resAt := LRe(`\(\*model\.Alert\)\.ResolvedAt\(&\w+:am/alert\.Alert(\.Alert)?, time\.Now\(\)\)`, true)
 	o.Check(len(parts) >= 1, "resolved-empty", "the list of resolved alerts is never filled", del)
 	for _, p := range parts {
 		o.Site(p.Call, "resolved += copy")
@@ -506,7 +506,7 @@ func flushDischargeRule(o *Ob) {
 	for _, in := range AllInstrs(fn) {
 		if st, isS := in.(*ssa.Store); isS && strings.HasSuffix(e.X(fn, st.Addr), ".EndsAt") {
 			o.Site(st, "EndsAt cleared on "+e.X(fn, st.Addr))
-			o.Check(strings.HasPrefix(e.X(fn, st.Addr), "&a:am/types.Alert"), "endsat-on-stored", "flush modifies the stored alert's EndsAt (it must only touch its copy)", st)
+			o.Check(regexpMatch(`&\w+:am/alert\.Alert\b.*`, e.X(fn, st.Addr)), "endsat-on-stored", "flush modifies the stored alert's EndsAt (it must only touch its copy)", st)
 			o.Guarded(st, "endsat-guard", "clearing the end time of a copy", resAt.Neg())
 			o.Check(e.X(fn, st.Val) == "zero:time.Time", "endsat-value", "a firing alert's copy must have its EndsAt cleared", st)
 		}
